@@ -87,6 +87,7 @@ func genLDOpts(t *rapid.T, n int) m.LDOpts {
 	if o.Context {
 		o.Vocab = rapid.Bool().Draw(t, "vocab")
 		o.Base = rapid.Bool().Draw(t, "base")
+		o.XsdPrefix = rapid.Bool().Draw(t, "xsdPrefix")
 	}
 	if n > 1 && rapid.Bool().Draw(t, "reorder") {
 		idx := make([]int, n)
